@@ -24,7 +24,7 @@ META = {
                    "regression the probability attached to predictor t's value equals weights_[t]; thresholder probability depends only on (score, group) "
                    "and is monotone in the score without flip. Reproducibility for a fixed integer seed is run on the real RNG (seeds are sampled).",
     "tier_bounds": {"quick": "EG: T<=3 predictors, all permutations of the weights_ index, n<=2 query rows, classification and regression; thresholder: 2 groups, "
-                             "3 rows, all operator combinations, with and without p_ignore; real-RNG reproducibility 3 seeds",
+                             "3 rows, 6 of the 16 operator combinations (all 16 in thorough), with and without p_ignore; real-RNG reproducibility 3 seeds",
                     "thorough": "T<=4, n<=3; thresholder 4 rows, 3 groups; 30 seeds"},
     "trusted_base": ["z3", "symx", "RNG contract stub (validated against numpy.random.RandomState)", "pandas as executed"],
     "stubs": ["check_random_state in exponentiated_gradient / _interpolated_thresholder -> contract RNG", "check_array pass-through", "score provider"],
@@ -98,6 +98,8 @@ def jobs(tier, seed):
             for kind in ("classification", "regression"):
                 js.append({"id": f"eg-{kind}-T{T}-{''.join(map(str, perm))}", "kind": "eg", "mode": kind, "T": T, "perm": list(perm), "n": nq})
     ops = list(itertools.product("><", repeat=4))
+    if tier == "quick":
+        ops = [o for o in ops if o in ((">", ">", ">", ">"), ("<", "<", "<", "<"), (">", "<", ">", "<"), ("<", ">", ">", ">"), (">", ">", "<", "<"), ("<", "<", ">", "<"))]
     for oi, op in enumerate(ops):
         for ignore in (False, True):
             js.append({"id": f"thr-{''.join(op).replace('>', 'g').replace('<', 'l')}-{'ign' if ignore else 'noign'}", "kind": "thr", "ops": list(op), "ignore": ignore,
